@@ -66,6 +66,13 @@ class ValueInit(Exception):
         super().__init__(str(n))
 
 
+class FalsyErr(Exception):
+    """an aggregate error with len(): with no sub-errors the instance is falsy (bool(exc) is False)."""
+
+    def __len__(self):
+        return 0
+
+
 class ValueEq(Exception):
     """value equality: two different objects of equal content compare equal (and hash alike)."""
 
